@@ -1,7 +1,7 @@
 import RotondaModel.Model.BmpIo
 /-! Line driver for the BMP framing / read-loop model (C06). One case per input line.
 
-Case lines:  `frame|<items>|<valid>`,  `sess|<items>|<valid>[|crash=<k>]`  and  `fatal|<kind>` (the extracted table)
+Case lines:  `frame|<items>|<valid>`,  `sess|<items>|<valid>[|crash=<k>][|abort=<k>]`  and  `fatal|<kind>` (the extracted table)
   items  = space separated: `x<hex>` a run of bytes, `z<n>` n zero bytes, `f.<kind>` a fault,
            `t` gate termination; `-` for the empty script
   valid  = one char per completely read frame, in order (`-` = none): what the real
@@ -69,13 +69,18 @@ def showOutcome : Outcome → String
 /-- `crash = some k`: the real `process_msg` panicked on the k-th accepted message (reported by
     the engine; the handler is a parameter of the model). The real counter `msgs` is incremented
     before processing, so the crashing message is counted. -/
-def sessCase (v : Variant) (items valid : String) (crash : Option Nat) : String :=
+def sessCase (v : Variant) (items valid : String) (opts : List String) : String :=
   let s := parseItems items
-  let r := runLoop v (crashingHandler crash) (parseValid valid) s 0
+  let crash := (opts.filterMap fun o => if o.startsWith "crash=" then (o.drop 6).toNat? else none).head?
+  let abort := (opts.filterMap fun o => if o.startsWith "abort=" then (o.drop 6).toNat? else none).head?
+  let r := runLoop v (scriptedHandler crash abort) (parseValid valid) s 0
   let fatal := match r.fin with | .fatal _ => 1 | _ => 0
   let fin := match r.fin with | .panicked => "panic" | .fuel => "fuel" | .waiting => "waiting" | _ => "done"
   let hc := if r.evs.any (fun e => match e with | .panic .handler => true | _ => false) then 1 else 0
-  s!"ioerrs={countIoErrs r.evs - fatal} msgs={countMsgs r.evs + hc} rest={r.rest.length} end={fin}"
+  -- the counters are read at the start of the last read: a message that makes the handler leave
+  -- the loop (`aborted`) is processed after that
+  let ab := match r.fin with | .aborted => 1 | _ => 0
+  s!"ioerrs={countIoErrs r.evs - fatal} msgs={countMsgs r.evs + hc - ab} rest={r.rest.length} end={fin}"
 
 def runCase (v : Variant) (line : String) : String :=
   let sess := sessCase v
@@ -84,8 +89,7 @@ def runCase (v : Variant) (line : String) : String :=
     let s := parseItems items
     let r := readFrame v (parseValid valid 0) s
     s!"{showOutcome r.1} rest={r.2.length}"
-  | ["sess", items, valid] => sess items valid none
-  | ["sess", items, valid, crash] => sess items valid ((crash.drop 6).toNat?)
+  | "sess" :: items :: valid :: opts => sess items valid opts
   | ["fatal", k] => s!"{isFatal (kindOf k)}"
   | _ => "bad-case"
 
